@@ -169,6 +169,9 @@ func ROptStack(c *core.Ctx) {
 	pop := p.LookupFunc("syntax", "parser.popOptions")
 	popKeep := p.LookupFunc("syntax", "parser.popKeepOptions")
 	pushGroup := p.LookupFunc("syntax", "parser.pushGroup")
+	scanBlank := p.LookupFunc("syntax", "parser.scanBlank")
+	scanOptions := p.LookupFunc("syntax", "parser.scanOptions")
+	moveRight := p.LookupFunc("syntax", "parser.moveRight")
 	if push == nil || pop == nil || popKeep == nil || pushGroup == nil {
 		c.Anchor("parser.pushOptions / popOptions / popKeepOptions / pushGroup")
 		return
@@ -250,6 +253,39 @@ func ROptStack(c *core.Ctx) {
 				if net != 0 && net != 1 {
 					bad = fmt.Sprintf("a path leaves %d saved option words", net)
 				}
+				// an option-only group (?i) consumes its own `)` before dropping the saved word; otherwise the
+				// main loop sees that `)` again and pops the ENCLOSING group's saved options as well
+				seenOpts, consumed := false, false
+				for _, e := range sp.events {
+					switch {
+					case e.fn != nil && e.fn == scanOptions:
+						seenOpts, consumed = true, false
+					case e.fn != nil && e.fn == moveRight && seenOpts:
+						consumed = true
+					case e.fn == popKeep:
+						if !seenOpts || !consumed {
+							bad = "popKeepOptions is reached without consuming the `)` that closes the option-only group (no moveRight between scanOptions and popKeepOptions): the `)` arm then pops the enclosing group's options too"
+						}
+					}
+				}
+				if net == 0 {
+					// allowed only for an option-only group (push + popKeepOptions) or a comment (scanBlank, nothing pushed):
+					// a plain `(` that saves nothing makes the matching `)` pop the enclosing group's options
+					keep, blank, pushed := false, false, false
+					for _, e := range sp.events {
+						switch {
+						case e.fn == popKeep:
+							keep = true
+						case e.fn == push:
+							pushed = true
+						case e.fn != nil && e.fn == scanBlank:
+							blank = true
+						}
+					}
+					if !(keep && pushed) && !(blank && !pushed) {
+						bad = "a path through the `(` arm opens a group without saving the options (its `)` then pops the enclosing group's saved options)"
+					}
+				}
 				continue
 			}
 			if net != want {
@@ -257,5 +293,106 @@ func ROptStack(c *core.Ctx) {
 			}
 		}
 		c.Check(bad == "", name+" / saved option words match opened groups on every path", open.Pos(), "%d non-returning paths; %s", np, bad)
+	}
+}
+
+// R-OPTSIGN: in an inline option group the sign characters select the mode
+// absolutely: after '-' letters are switched off, after '+' they are switched
+// on again ((?i-s+m) turns m ON).
+func ROptSign(c *core.Ctx) {
+	c.Rule("R-OPTSIGN", "in scanOptions the flag that selects between `options &= ^option` and `options |= option` is assigned the constant true in the case arm of '-' and the constant false in the case arm of '+' (each sign sets the mode absolutely; a '+' after a '-' switches back to turning options on)", 2)
+	p := c.P
+	syn := p.Pkg("syntax")
+	info := syn.TypesInfo
+	fd, _ := p.DeclOf(p.LookupFunc("syntax", "parser.scanOptions"))
+	if fd == nil {
+		c.Anchor("syntax.parser.scanOptions")
+		return
+	}
+	c.Visit("syntax.(*parser).scanOptions")
+	// the flag: condition of the if whose then-branch clears bits (&= with ^ / &^=)
+	var flag types.Object
+	ast.Inspect(fd.Body, func(n ast.Node) bool {
+		ifs, ok := n.(*ast.IfStmt)
+		if !ok || ifs.Else == nil {
+			return true
+		}
+		id, ok := ast.Unparen(ifs.Cond).(*ast.Ident)
+		if !ok {
+			return true
+		}
+		clears := false
+		ast.Inspect(ifs.Body, func(m ast.Node) bool {
+			if as, ok := m.(*ast.AssignStmt); ok && (as.Tok == token.AND_ASSIGN || as.Tok == token.AND_NOT_ASSIGN) {
+				clears = true
+			}
+			return true
+		})
+		sets := false
+		ast.Inspect(ifs.Else, func(m ast.Node) bool {
+			if as, ok := m.(*ast.AssignStmt); ok && as.Tok == token.OR_ASSIGN {
+				sets = true
+			}
+			return true
+		})
+		if clears && sets {
+			flag = info.ObjectOf(id)
+		}
+		return true
+	})
+	if flag == nil {
+		c.Anchor("the on/off flag of scanOptions (if flag { options &= ^o } else { options |= o })")
+		return
+	}
+	want := map[rune]string{'-': "true", '+': "false"}
+	seen := map[rune]bool{}
+	tagText := ""
+	ast.Inspect(fd.Body, func(n ast.Node) bool {
+		if sw, ok := n.(*ast.SwitchStmt); ok && sw.Tag != nil && tagText == "" {
+			tagText = types.ExprString(sw.Tag)
+		}
+		cc, ok := n.(*ast.CaseClause)
+		if !ok {
+			return true
+		}
+		for _, e := range cc.List {
+			v, ok := core.ConstInt(info, e)
+			if !ok {
+				continue
+			}
+			w, ok := want[rune(v)]
+			if !ok {
+				continue
+			}
+			seen[rune(v)] = true
+			got := "no assignment to the flag"
+			for _, st := range cc.Body {
+				if as, ok := st.(*ast.AssignStmt); ok && len(as.Lhs) == 1 && len(as.Rhs) == 1 {
+					if id, ok := as.Lhs[0].(*ast.Ident); ok && info.ObjectOf(id) == flag {
+						got = types.ExprString(as.Rhs[0])
+						// evaluate under "the switch tag equals this label" (an arm shared by both signs may compute the flag from the character)
+						be := &boolEval{info: info, defs: map[types.Object]ast.Expr{}, assume: map[string]bool{}}
+						if tagText != "" {
+							for r := range want {
+								be.assume[tagText+" == '"+string(r)+"'"] = r == rune(v)
+							}
+						}
+						switch be.eval(as.Rhs[0]) {
+						case tTrue:
+							got = "true"
+						case tFalse:
+							got = "false"
+						}
+					}
+				}
+			}
+			c.Check(got == w, fmt.Sprintf("scanOptions / the arm of '%c' sets the off-flag to %s", rune(v), w), cc.Pos(), "the arm assigns %s (shared with: %d label(s))", got, len(cc.List))
+		}
+		return true
+	})
+	for r := range want {
+		if !seen[r] {
+			c.Bad(fmt.Sprintf("scanOptions / the arm of '%c' sets the off-flag to %s", r, want[r]), fd.Pos(), "no case arm for this sign")
+		}
 	}
 }
